@@ -12,6 +12,13 @@ Two further dimensions of every editing block: (configuration) the same block wi
 mouette.config off while it runs - what is handed back is then exactly what the operations wrote; (history) blocks
 that are left by an exception after 0, 1 or 2 operations - the object passed in must still be unchanged or a valid
 refinement whose connectivity answers describe its own containers.
+
+Deviations (same clauses, input class suffixed with the deviation, coverage guarded separately in finish()):
+':unit=2^-100' / ':unit=2^100' - every coordinate multiplied by an exact power of two (lengths x s, areas x s^2, volumes
+x s^3, everything combinatorial unchanged: observations are converted exactly into the unit of the task, so every
+tolerance is relative to it); ':sort=False' - mouette.config.sort_neighborhoods off while the mesh is built, queried,
+processed and judged; ':face_order=rotated' - every face of the list in position 0 in turn (also under ':sort=False');
+':arg=numpy_int' - face / cell / edge indices handed over as numpy.int64.
 """
 from __future__ import annotations
 import itertools, pickle
@@ -25,7 +32,8 @@ TECHNIQUE = ("explicit-state BFS over operation sequences inside one editing blo
              "objects (and split_edge call sequences), for every mesh of bounded-exhaustive families x {connectivity "
              "queried before, not queried} x {completion switches on, off} x {block completed, left by the caller's exception, "
              "left by a rejected argument}, vs an exact reference refinement model + independent validity/topology/"
-             "connectivity oracles")
+             "connectivity oracles; deviations of the setting (unit of length 2^-100 / 2^100, config.sort_neighborhoods off, "
+             "face order, numpy integer indices) over a representative subset with the same clauses")
 RULE = ("inputs: labelled oriented manifold complexes SURF (triangle, quad, mixed, pentagon), ZOO specimens, all conforming "
         "tetrahedral complexes TET(<=5) in two cell orientations, all graphs GRAPH(<=4) as polylines; per input a BFS over "
         "event sequences (surface: triangulate, triangulate_face(f), split_face_as_fan(f), loop_subdivision(1|2), "
@@ -37,7 +45,12 @@ RULE = ("inputs: labelled oriented manifold complexes SURF (triangle, quad, mixe
         "single operation of every entry point and the first explored pair of every class are run again as blocks LEFT BY AN "
         "EXCEPTION (raise in the caller's code; an operation called with index == number of elements), queried before or "
         "not; polyline: split_edge with the index of an edge that does not exist after every explored history; "
-        "a case = one distinct (input, raw state reached); non-trivial = at least one element was refined")
+        "deviations: one member per isomorphism class of SURF (single operations + the two repeated refinements), 7 ZOO "
+        "specimens, every TET complex (single operations), every GRAPH (<= 2 splits) once more with all coordinates x 2^-100 "
+        "and x 2^100, with config.sort_neighborhoods off (here also every rotation of the face list and the sorted cell "
+        "orientation, connectivity queried before or not), with numpy.int64 indices; every rotation of the face list of the "
+        "classes under the default configuration (with and without edge completion); "
+        "a case = one distinct (input, deviation, raw state reached); non-trivial = at least one element was refined")
 ASSUMPTIONS = [
     "inputs are oriented manifold polygon complexes / conforming tetrahedral complexes / simple graphs within the size bounds; larger meshes only through the ZOO specimens; coordinates: integer moment curve (generic) for SURF/TET/GRAPH, the specimens' own coordinates for ZOO",
     "the raw state is read from editor.mesh after every operation (needed to give face/cell indices a meaning: the statement does not fix the numbering of new elements); in the oracle a vertex is identified by its exact affine combination of the original vertices, matched to the observed vertex by position (tolerance 1e-9 x coordinate scale); a sequence in which two different centres coincide within that tolerance is filtered and counted (filtered_coincident_refinement_points)",
@@ -49,6 +62,10 @@ ASSUMPTIONS = [
     "split_double_boundary_edges_triangles is only called on triangle meshes (its documentation speaks of triangles); attributes (e.g. the hard_edges flags that loop_subdivision's explicit edge list acquires in prepare()) are outside the statement and not compared",
     "after an operation raised or failed a clause, the remaining clauses of that sequence are not evaluated and the sequence is not extended",
     "configuration dimension: the mesh is built with the default configuration (complete edge / face lists); the switches are off from just before the block is entered until it has been left and are restored in a finally. With completion off nothing promises that the edge list covers every side: the unchanged library leaves the diagonal of a split quad, every edge of the 1-to-3 / 1-to-6 refinements, every edge of the volume operations and the inner faces of split cells to the completion step (counted per operation, not judged). Judged: vertices/faces/cells independent of the switches; exit hands back exactly the edges (faces) the operations wrote; no duplicate, unsorted or foreign edge/face; corners match; the sides of a vertex created by the last operation have their edges all or none ('never half-updated'); split_tet_from_face_center leaves its documented three sub-triangles in place of the split one; connectivity answers only when the edge list covers every side (accessor domains capped at 30)",
+    "unit of length: the statement knows no unit, so the same complexes with every coordinate multiplied by s = 2^-100 or 2^100 must be refined the same way (new vertices at the scaled centres, total area x s^2, total volume x s^3, total length x s, counts / topology / connectivity unchanged). s is a power of two, so the scaled inputs and the conversion of every observed coordinate back into units of s are exact (checked per coordinate; a coordinate that does not convert exactly is reported); the oracle then runs unchanged, i.e. its tolerance 1e-9 x coordinate scale and its exact area / volume comparisons are relative to the unit. Measured on the unchanged library: results are bitwise scale-equivariant for every s = 2^e with |e| <= 340 (surface, volume, polyline operations); +-100 is used because s^6 is still a normal double there (squared volumes of a careful implementation do not over/underflow) while every absolute threshold from 1e-6 to 1e-16 on a length, an area or a volume is crossed (edge lengths 1e-30 .. 1e-28 / 1e30 .. 1e32)",
+    "config.sort_neighborhoods is a documented switch of mouette.config (vertex rings unsorted); the statement does not depend on it. It is off from before the mesh is built until the last answer has been judged (restored in a finally); the accessor tables of C01 / C03 are instantiated for that value (ring answers are then judged as sets)",
+    "face order: rotating the face list of a complex gives another admissible input; every face of every SURF class is put in position 0 in turn (index 0 is also the first argument tried for every indexed operation)",
+    "indices given as numpy.int64: the documentation says 'int'; an index read from a numpy array is the usual way to obtain one and the unchanged library accepts it everywhere, so the same clauses are demanded (only the operations that take an index are run)",
     "history dimension: a block left by an exception. The unchanged library rebuilds the object passed in whenever the block is left (its __exit__ ignores the exception and lets it propagate), so the object equals the result of the completed block of the operations done so far; demanded is only the statement: unchanged or equal to that result, all connectivity answers describing its own containers. An index equal to the number of faces/cells/edges is rejected with IndexError before anything is written by every operation of the unchanged library; the rejection itself is not demanded (an accepted index is counted and skipped), nor is the propagation of the exception (counted)",
 ]
 BOUNDS = {
@@ -61,14 +78,20 @@ BOUNDS = {
               "(71 graphs with an edge), split_edge sequences <= 3 over every current edge; accessor domains capped at 60 arguments; "
               "completion switches off: every explored surface / volume sequence once (volume: two switch settings); blocks left by an "
               "exception: per input <= 1 + 6 + 4 (surface) / 1 + 2 + 1 (volume) prefixes x {caller, rejected TF, rejected FAN | rejected "
-              "CFAN, rejected FSPLIT} x {queried, not}; polyline: one rejected call per expanded history (<= 2 splits) x {queried, not}"),
+              "CFAN, rejected FSPLIT} x {queried, not}; polyline: one rejected call per expanded history (<= 2 splits) x {queried, not}; "
+              "deviations (accessor domains capped at 30, no completion-off / abandoned blocks unless stated): unit 2^-100 and 2^100: 40 SURF classes "
+              "(weight 1 + loop_subdivision(2), subdivide_triangles_6(2)) + 7 ZOO specimens + 27 TET complexes (positive, single operations) + 71 graphs "
+              "(<= 2 splits), not queried; sort_neighborhoods off: the same + the 87 other rotations of the face lists (weight 1) + TET sorted, queried and "
+              "not; face order: the 87 rotations, default configuration, not queried, with the completion-off block; numpy.int64 indices: 40 classes "
+              "(indexed operations only), 27 TET, 71 graphs, queried and not"),
     "thorough": ("refined meshes of more than 400 faces are not produced; surface: weight <= 3 on the classes of SURF triangles n<=5, triangle+quad n=4, "
                  "pentagons (13); weight <= 2 on every class, on every labelled complex on <= 4 vertices and on every single-transposition relabeling of the "
                  "triangle and pentagon classes on 5 vertices (142); weight <= 1 on every labelled triangle / pentagon complex on 5 vertices and every "
                  "single-transposition relabeling of the triangle+quad / polygon classes (632); 33 ZOO specimens at weight <= 2 (<= 12 faces) or 1; face "
                  "arguments: every face when the state has <= 6 faces; volume: sequences <= 2 with every cell and face argument at both steps, both cell "
                  "orientations; <= 3 with representatives (positive orientation); polyline: split_edge sequences <= 4; accessor domains capped at 200 arguments; "
-                 "completion switches off and blocks left by an exception: as in quick, over the thorough sequences (abandoned prefixes: <= 2 operations)"),
+                 "completion switches off and blocks left by an exception: as in quick, over the thorough sequences (abandoned prefixes: <= 2 operations); "
+                 "deviations: as in quick, the SURF classes under sort_neighborhoods off at weight <= 2"),
 }
 
 
@@ -185,6 +208,74 @@ def tasks(tier):
     B = 8 if tier == "quick" else 2
     for i in range(0, len(graphs), B):
         out.append({"fam": "graph", "depth": 3 if tier == "quick" else 4, "graphs": graphs[i:i + B]})
+    return out + _deviation_tasks(tier, ins, tets, graphs)
+
+
+# =========================================================================================== deviations
+# The same editing blocks once more under a deviation of the setting the statement is silent about (so the clauses are the
+# same); every fingerprint of such a task carries the deviation as a suffix of its input class, its coverage facts are
+# kept apart (prefixed) and guarded in finish().
+UNIT_EXPS = (-100, 100)       # unit of length 2^e: measured - the unchanged library is bitwise scale-equivariant for |e| <= 340
+DEV_UNIT = ["unit=2^%d" % e for e in UNIT_EXPS]
+DEV_SORT, DEV_ORDER, DEV_NPINT = "sort=False", "face_order=rotated", "arg=numpy_int"
+ZOO_DEV = ("grid2x3mixed", "grid3x3quad", "octahedron", "cube_quads", "dodecahedron", "annulus3a", "torus3x3q")
+ARGFORM = [None]              # None | "numpy_int": the form in which face / cell / edge indices are handed to the operations
+
+
+def _arg(i):
+    if i is None or ARGFORM[0] is None:
+        return i
+    import numpy as np
+    return np.int64(i)
+
+
+def _deviation_tasks(tier, ins, tets, graphs):
+    """unit of length; config.sort_neighborhoods off while the mesh is built and processed; every face in position 0
+    of the face list in turn; indices given as numpy integers. Subsets: one member per isomorphism class of the SURF
+    families (single operations + the two repeated refinements), 7 ZOO specimens, every TET complex (positively
+    oriented; single operations), every GRAPH (<= 2 splits)."""
+    out = []
+    classes = [x for x in ins if x[0].split("c#")[-1].isdigit() and "c#" in x[0]]
+    w = 1 if tier == "quick" else 2
+    zoo = [z for z in _zoo(tier) if z[0] in ZOO_DEV]
+    lite_a = {"queried": False, "config_off": False, "abandoned": False}
+    lite_ab = {"queried": True, "config_off": False, "abandoned": False}
+    common = {"fam": "surf", "cap": 30, "max_faces": 160, "all_faces": False}
+
+    def surf(dev, meshes, lite, B, **kw):
+        for i in range(0, len(meshes), B):
+            out.append(dict(common, dev=dev, lite=lite, meshes=meshes[i:i + B], **kw))
+
+    def rotations(x, ks):
+        name, n, fl, _ = x
+        return [[f"{name}r{k}", n, fl[k:] + fl[:k], 1] for k in ks(len(fl))]
+    for e, dev in zip(UNIT_EXPS, DEV_UNIT):
+        surf(dev, [[x[0], x[1], x[2], 1] for x in classes], lite_a, 10, unit=e, repeated=True)
+        for name, p, f in zoo:
+            out.append(dict(common, dev=dev, lite=lite_a, unit=e, zoo=[name, p, f, 1]))
+        for i in range(0, len(tets), 14):
+            out.append({"fam": "tet", "dev": dev, "lite": lite_a, "unit": e, "cap": 30, "complexes": tets[i:i + 14], "variant": "positive", "depth": 1, "all_args": False})
+        out.append({"fam": "graph", "dev": dev, "lite": lite_a, "unit": e, "depth": 2, "graphs": graphs})
+    # ---- sort_neighborhoods off: classes (weight as in the tier), every other face order at weight 1, specimens, volumes, polylines
+    surf(DEV_SORT, [[x[0], x[1], x[2], w] for x in classes], lite_ab, 5 if w == 1 else 1, sort=False, repeated=(w == 1))
+    surf(DEV_SORT, [r for x in classes for r in rotations(x, lambda k: range(1, k))], lite_ab, 12, sort=False)
+    for name, p, f in zoo:
+        out.append(dict(common, dev=DEV_SORT, lite=lite_ab, sort=False, zoo=[name, p, f, 1]))
+    for i in range(0, len(tets), 9):
+        out.append({"fam": "tet", "dev": DEV_SORT, "lite": lite_ab, "sort": False, "cap": 30, "complexes": tets[i:i + 9], "variant": "positive",
+                    "depth": 1, "all_args": False})
+    for i in range(0, len(tets), 9):
+        out.append({"fam": "tet", "dev": DEV_SORT, "lite": lite_ab, "sort": False, "cap": 30, "complexes": tets[i:i + 9], "variant": "sorted",
+                    "depth": 1, "all_args": False})
+    out.append({"fam": "graph", "dev": DEV_SORT, "lite": lite_ab, "sort": False, "depth": 2, "graphs": graphs})
+    # ---- default configuration, every face in position 0 in turn (the listing of the class itself is a regular input)
+    surf(DEV_ORDER, [r for x in classes for r in rotations(x, lambda k: range(1, k))], {"queried": False, "config_off": True, "abandoned": False}, 12)
+    # ---- indices handed over as numpy integers (only the operations that take an index)
+    surf(DEV_NPINT, [[x[0], x[1], x[2], 1] for x in classes], lite_ab, 20, argform="numpy_int", arg_events_only=True)
+    for i in range(0, len(tets), 9):
+        out.append({"fam": "tet", "dev": DEV_NPINT, "lite": lite_ab, "argform": "numpy_int", "cap": 30, "complexes": tets[i:i + 9], "variant": "positive",
+                    "depth": 1, "all_args": False})
+    out.append({"fam": "graph", "dev": DEV_NPINT, "lite": lite_ab, "argform": "numpy_int", "depth": 2, "graphs": graphs})
     return out
 
 
@@ -196,8 +287,24 @@ def _idx(x):
     return int(x)
 
 
+UNIT = [1.0]      # unit of length of the meshes being built (an exact power of two); observations are read in this unit
+
+
+class InexactUnit(Exception):
+    pass
+
+
 def _pts(cont):
-    return [tuple(float(c) for c in p) for p in cont]
+    """vertex positions as observed, expressed in the unit of length of the task. The unit is a power of two, so the
+    conversion is exact (checked): every tolerance of the oracle is thereby relative to the unit, and an error of
+    absolute size made by the library at a tiny unit shows up magnified"""
+    u = UNIT[0]
+    if u == 1.0:
+        return [tuple(float(c) for c in p) for p in cont]
+    out = [tuple(float(c) / u for c in p) for p in cont]
+    if any((x * u != float(c)) and x == x for p, q in zip(cont, out) for c, x in zip(p, q)):
+        raise InexactUnit("a coordinate is not exactly representable in the unit of the task")
+    return out
 
 
 def _rows(cont):
@@ -288,8 +395,8 @@ S_REPLACING = ("L", "L2", "Q3", "S6", "S6x2")
 
 def _apply_surf(ed, kind, arg):
     if kind == "T": ed.triangulate()
-    elif kind == "TF": ed.triangulate_face(arg)
-    elif kind == "FAN": ed.split_face_as_fan(arg)
+    elif kind == "TF": ed.triangulate_face(_arg(arg))
+    elif kind == "FAN": ed.split_face_as_fan(_arg(arg))
     elif kind == "L": ed.loop_subdivision(1)
     elif kind == "L2": ed.loop_subdivision(2)
     elif kind == "Q3": ed.subdivide_triangles_3quads()
@@ -299,10 +406,15 @@ def _apply_surf(ed, kind, arg):
 
 
 class SurfCtx:
-    def __init__(self, M, name, pts, faces, depth, cap, all_faces, rep, is_zoo, max_faces):
+    def __init__(self, M, name, pts, faces, depth, cap, all_faces, rep, is_zoo, max_faces, scale=1.0, lite=None, arg_events_only=False):
         from props import c01
+        if scale != 1.0:       # unit of length: an exact power of two, so every scaled coordinate is exact
+            pts = [tuple(float(x) * scale for x in p) for p in pts]
         self.M, self.name, self.pts, self.faces, self.depth, self.cap, self.rep = M, name, pts, faces, depth, cap, rep
         self.all_faces, self.is_zoo = all_faces, is_zoo
+        lite = lite or {}
+        self.do_queried, self.do_config_off, self.do_abandoned = (lite.get(k, True) for k in ("queried", "config_off", "abandoned"))
+        self.arg_events_only = arg_events_only
         self.max_faces = max_faces      # bound on the number of faces of a refined mesh
         self.sort = bool(M.config.sort_neighborhoods)
         self.events = c01._events(self.sort)
@@ -319,6 +431,8 @@ class SurfCtx:
         self.area_defined = all(len(f) == 3 or R.planar_convex([self.P0[v] for v in f]) for f in self.F0)
         self.area0 = R.area_by_direction(self.P0, self.F0) if self.area_defined else None
         self.base = {"mesh": name, "points": [list(p) for p in pts], "faces": [list(f) for f in faces]}
+        _describe_setting(self.base, scale, self.sort)
+        _setting_flags(rep, m0.vertices, scale, self.sort)
 
     def build(self):
         return F.build_surface(self.pts, self.faces)
@@ -333,11 +447,32 @@ class SurfCtx:
         return d
 
 
-def _surf_events(state, weight_left, all_faces, is_zoo, max_faces, rep):
+def _describe_setting(base, scale, sort):
+    """what a reader needs to reproduce a counterexample found under a deviation"""
+    if scale != 1.0:
+        base["unit_of_length"] = scale
+    if not sort:
+        base["config"] = {"sort_neighborhoods": False}
+    if ARGFORM[0] is not None:
+        base["indices_given_as"] = "numpy.int64"
+
+
+def _setting_flags(rep, V, scale, sort):
+    """vacuity: the deviation really was in force on the mesh that was built"""
+    big = max([abs(float(x)) for p in V for x in p], default=0.0)
+    if scale != 1.0 and (big < 2.0 ** -80 if scale < 1 else big > 2.0 ** 80):
+        rep.flag("built_with_scaled_coordinates")
+    if not sort:
+        rep.flag("built_with_sort_neighborhoods_off")
+    if ARGFORM[0] is not None:
+        rep.flag("indices_given_as_numpy_integers")
+
+
+def _surf_events(state, weight_left, all_faces, is_zoo, max_faces, rep, arg_events_only=False):
     Fl = state["F"]
     evs = []
     lens = [len(f) for f in Fl]
-    for kind, w in S_GLOBAL:
+    for kind, w in (() if arg_events_only else S_GLOBAL):
         if w <= weight_left or (is_zoo and w == 2 and weight_left == 1 and state["depth"] == 0):
             if R.estimate_faces(lens, kind) > max_faces:
                 rep.count("events_skipped_result_larger_than_the_face_bound"); continue
@@ -500,7 +635,7 @@ def _check_surface_result(cx: SurfCtx, seq, Rm, last_obs, Pex, callee, cls):
         a1 = R.area_by_direction(Pex, s["F"])
         if a1 != cx.area0:
             t0, t1 = R.total_area(cx.area0), R.total_area(a1)
-            lab = "total_area" if abs(t0 - t1) > 1e-9 * max(1.0, t0) else "area_per_plane"
+            lab = "total_area" if abs(t0 - t1) > 1e-9 * t0 else "area_per_plane"
             rep.violation(sub + "area", callee, "mismatch:" + lab, cls, cx.detail(seq, got=t1, want=t0))
         rep.count("area_clause_evaluated")
         if cx.arity != "3":
@@ -719,7 +854,7 @@ def explore_surface(cx: SurfCtx):
         seq = frontier.pop(0)
         st = known[seq]
         wl = cx.depth - sum(S_WEIGHT[k] for k, _ in seq)
-        for ev in _surf_events(st, wl, cx.all_faces, cx.is_zoo, cx.max_faces, rep):
+        for ev in _surf_events(st, wl, cx.all_faces, cx.is_zoo, cx.max_faces, rep, cx.arg_events_only):
             seq2 = seq + (ev,)
             kind, arg = ev
             callee = S_CALLEE[kind]
@@ -777,19 +912,24 @@ def explore_surface(cx: SurfCtx):
                     sres = _check_surface_result(cx, seq2, runA["ed"].mesh, obs, Pex, callee, opcls)
                     doneA = _check_surface_input_object(cx, seq2, runA, sres, False, "SurfaceSubdivision.__exit__")
                     after["res"] = sres
-                    if sres is not None:
+                    rep.count("steps_validated")
+                    if sres is not None and cx.do_config_off:
                         _check_surface_config_off(cx, seq2, st, runA, sres, callee)
             # ---- same sequence with connectivity queried before
-            runB = _run_surf_block(cx, seq2, True)
+            runB = _run_surf_block(cx, seq2, True) if cx.do_queried else runA
             rep.evaluations += 1
             same = (runB["exc"] == runA["exc"]) and [(s["V"], s["F"]) for s in runB["states"]] == [(s["V"], s["F"]) for s in runA["states"]]
             sresB = None
-            if same and runA["exc"] is None:
+            if not cx.do_queried:
+                pass
+            elif same and runA["exc"] is None:
                 oB = call(_snap_surf, runB["ed"].mesh)
                 oA = call(_snap_surf, runA["ed"].mesh)
                 same = oA.ok == oB.ok and (not oA.ok or oA.value == oB.value)
                 sresB = oB.value if oB.ok else None
-            if not same:
+            if not cx.do_queried:
+                pass
+            elif not same:
                 rep.violation("C13.surf.pre_state_independent", callee, "mismatch:result_depends_on_queried_connectivity", cx.icls,
                               cx.detail(seq2, exc_fresh=runA["exc"], exc_queried=runB["exc"]))
             elif after is not None:
@@ -804,8 +944,11 @@ def explore_surface(cx: SurfCtx):
                     rep.case((cx.name, key))
                     if sum(S_WEIGHT[k] for k, _ in seq2) < cx.depth:
                         frontier.append(seq2)
-    _check_surface_abandoned(cx, known)
+    if cx.do_abandoned:
+        _check_surface_abandoned(cx, known)
     rep.count("surface_inputs")
+    if len(cx.F0[0]) != 3 and len(set(len(f) for f in cx.F0)) > 1:
+        rep.flag("non_triangle_in_position_0_of_a_mixed_face_list")
     rep.flag("closed" if cx.closed else "bordered")
     for f in cx.F0:
         rep.flag("arity%d" % min(len(f), 5))
@@ -823,7 +966,7 @@ def check_split_double(cx: SurfCtx):
     seq = (("SDB", None),)
     results = {}
     doneA = set()
-    for queried in (False, True):
+    for queried in ((False, True) if cx.do_queried else (False,)):
         rep.traces += 1; rep.transitions += 1
         m = cx.build()
         if queried:
@@ -872,12 +1015,15 @@ def _vol_events():
 
 
 class VolCtx:
-    def __init__(self, M, name, n, cells, variant, depth, cap, all_args, rep):
+    def __init__(self, M, name, n, cells, variant, depth, cap, all_args, rep, scale=1.0, lite=None):
         from props import c03
         self.M, self.name, self.rep, self.depth, self.cap, self.all_args = M, name, rep, depth, cap, all_args
         self.c03 = c03
-        self.pts = F.moment_curve(n, 1)
-        self.cells = [tuple(c) for c in cells] if variant == "sorted" else F.orient_cells_positive(cells, self.pts)
+        lite = lite or {}
+        self.do_queried, self.do_config_off, self.do_abandoned = (lite.get(k, True) for k in ("queried", "config_off", "abandoned"))
+        ipts = F.moment_curve(n, 1)
+        self.pts = ipts if scale == 1.0 else [tuple(float(x) * scale for x in p) for p in ipts]   # exact: scale is a power of two
+        self.cells = [tuple(c) for c in cells] if variant == "sorted" else F.orient_cells_positive(cells, ipts)
         self.variant = variant
         self.sort = bool(M.config.sort_neighborhoods)
         self.events = [e for e in c03._events(self.sort) if e.name not in ("enable_boundary_connectivity", "extract_boundary_of_volume")]
@@ -889,6 +1035,8 @@ class VolCtx:
         self.vol0 = R.volume6_abs(self.P0, s0["C"])
         self.icls = f"tet:cells{'1' if len(self.cells) == 1 else '2+'}:{variant}"
         self.base = {"complex": name, "points": [list(p) for p in self.pts], "cells": [list(c) for c in self.cells]}
+        _describe_setting(self.base, scale, self.sort)
+        _setting_flags(rep, m0.vertices, scale, self.sort)
 
     def build(self):
         return F.build_volume(self.pts, self.cells, tuple)
@@ -922,8 +1070,8 @@ def _run_vol_block(cx: VolCtx, seq, queried, cfg=None, leave=None):
         try:
             with ed:
                 for kind, arg in seq:
-                    if kind == "CFAN": ed.split_cell_as_fan(arg)
-                    else: ed.split_tet_from_face_center(arg)
+                    if kind == "CFAN": ed.split_cell_as_fan(_arg(arg))
+                    else: ed.split_tet_from_face_center(_arg(arg))
                     states.append({"V": _pts(ed.mesh.vertices), "C": _rows(ed.mesh.cells), "F": _rows(ed.mesh.faces),
                                    "E": [tuple(int(x) for x in e) for e in ed.mesh.edges]})
                 if leave == "caller":
@@ -932,8 +1080,8 @@ def _run_vol_block(cx: VolCtx, seq, queried, cfg=None, leave=None):
                 elif leave is not None:
                     left["arg"] = len(ed.mesh.cells) if leave == "CFAN" else len(ed.mesh.faces)
                     try:
-                        if leave == "CFAN": ed.split_cell_as_fan(left["arg"])
-                        else: ed.split_tet_from_face_center(left["arg"])
+                        if leave == "CFAN": ed.split_cell_as_fan(_arg(left["arg"]))
+                        else: ed.split_tet_from_face_center(_arg(left["arg"]))
                         left["mode"] = "accepted"
                     except Exception as ex0:   # noqa
                         left["mode"], left["exc"] = "rejected", ex0
@@ -1256,17 +1404,22 @@ def explore_volume(cx: VolCtx):
                     sres = _check_volume_result(cx, seq2, runA["ed"].mesh, obs, Pex, callee, cls)
                     doneA = _check_volume_input_object(cx, seq2, runA, sres, False)
                     after["res"] = sres
-                    if sres is not None and not _validity_volume(sres):
+                    rep.count("steps_validated")
+                    if sres is not None and not _validity_volume(sres) and cx.do_config_off:
                         _check_volume_config_off(cx, seq2, st, runA, sres, callee)
-            runB = _run_vol_block(cx, seq2, True)
+            runB = _run_vol_block(cx, seq2, True) if cx.do_queried else runA
             rep.evaluations += 1
             same = (runB["exc"] == runA["exc"]) and [(s["V"], s["C"]) for s in runB["states"]] == [(s["V"], s["C"]) for s in runA["states"]]
             sresB = None
-            if same and runA["exc"] is None:
+            if not cx.do_queried:
+                pass
+            elif same and runA["exc"] is None:
                 oA, oB = call(_snap_vol, runA["ed"].mesh), call(_snap_vol, runB["ed"].mesh)
                 same = oA.ok == oB.ok and (not oA.ok or oA.value == oB.value)
                 sresB = oB.value if oB.ok else None
-            if not same:
+            if not cx.do_queried:
+                pass
+            elif not same:
                 rep.violation("C13.vol.pre_state_independent", callee, "mismatch:result_depends_on_queried_connectivity", cls,
                               cx.detail(seq2, exc_fresh=runA["exc"], exc_queried=runB["exc"]))
             elif after is not None:
@@ -1280,7 +1433,8 @@ def explore_volume(cx: VolCtx):
                     rep.case((cx.name, cx.variant, key))
                     if len(seq2) < cx.depth:
                         frontier.append(seq2)
-    _check_volume_abandoned(cx, known)
+    if cx.do_abandoned:
+        _check_volume_abandoned(cx, known)
     rep.count("volume_inputs")
     if len(cx.cells) >= 2:
         rep.flag("tet_shared_face")
@@ -1340,16 +1494,25 @@ def _validity_line(s):
     return bad
 
 
-def explore_polyline(M, n, edges, depth, rep: Report):
-    from mouette.mesh.subdivision import split_edge
+def explore_polyline(M, n, edges, depth, rep: Report, scale=1.0, lite=None):
+    from mouette.mesh.subdivision import split_edge as _split_edge
+    split_edge = lambda pl, e: _split_edge(pl, _arg(e))
+    lite = lite or {}
+    modes = (False, True) if lite.get("queried", True) else (False,)
     pts = F.moment_curve(n)
-    name = f"graph{n}:{edges}"
+    if scale != 1.0:
+        pts = [tuple(float(x) * scale for x in p) for p in pts]      # exact: scale is a power of two
+    name = (f"graph{n}:{edges}" + ("" if scale == 1.0 else f":unit={scale!r}") + ("" if M.config.sort_neighborhoods else ":sort=False")
+            + ("" if ARGFORM[0] is None else ":arg=" + ARGFORM[0]))
     build = lambda: F.build_polyline(pts, edges, tuple)
-    s0 = _snap_line(build())
+    m0 = build()
+    s0 = _snap_line(m0)
     comps0 = len(F.components(n, s0["E"]))
     P0 = [R.P(p) for p in s0["V"]]
     length0 = sum(float(R.dot(R.sub(P0[a], P0[b]), R.sub(P0[a], P0[b]))) ** 0.5 for a, b in s0["E"])
     base = {"points": [list(p) for p in pts], "edges": [list(e) for e in edges]}
+    _describe_setting(base, scale, bool(M.config.sort_neighborhoods))
+    _setting_flags(rep, m0.vertices, scale, bool(M.config.sort_neighborhoods))
     known = {(): {"V": s0["V"], "E": s0["E"], "P": P0}}
     seen = {h64(pickle.dumps((s0["V"], s0["E"])))}
     frontier = [()]
@@ -1362,7 +1525,7 @@ def explore_polyline(M, n, edges, depth, rep: Report):
         #      promises the rejection; if it is rejected the polyline passed in must be unchanged (there is no result it
         #      could be equal to) and its connectivity answers must describe its own edge list
         reported_rej = set()
-        for queried in (False, True):
+        for queried in (modes if lite.get("abandoned", True) else ()):
             rep.traces += 1; rep.transitions += 1
             pl = build()
             if queried:
@@ -1397,7 +1560,7 @@ def explore_polyline(M, n, edges, depth, rep: Report):
             after = None
             snaps = {}
             reported = set()
-            for queried in (False, True):
+            for queried in modes:
                 rep.traces += 1; rep.transitions += 1
                 cls = f"polyline:{'first_split' if not seq else 'after_a_split'}:{'queried_before' if queried else 'not_queried'}"
                 det = dict(base, sequence=list(seq2))
@@ -1452,7 +1615,7 @@ def explore_polyline(M, n, edges, depth, rep: Report):
                 if len(F.components(len(s["V"]), s["E"])) != comps0 or len(s["V"]) - len(s["E"]) != n - len(s0["E"]):
                     V("topology", "mismatch:components_or_euler", det)
                 length = sum(float(R.dot(R.sub(Pex[x], Pex[y]), R.sub(Pex[x], Pex[y]))) ** 0.5 for x, y in s["E"])
-                if abs(length - length0) > 1e-9 * max(1.0, length0):
+                if abs(length - length0) > 1e-9 * length0:
                     V("length", "mismatch:total_length", dict(det, got=length, want=length0))
                 fails = _line_oracle_fails(res, s, rep)
                 if fails:
@@ -1468,6 +1631,7 @@ def explore_polyline(M, n, edges, depth, rep: Report):
                             V("input_caches", "mismatch:stale_connectivity", dict(det, **_summary(f2)))
                 if not queried:
                     after = {"V": s["V"], "E": s["E"], "P": Pex}
+                    rep.count("steps_validated")
             if len(snaps) == 2 and snaps[False] != snaps[True]:
                 rep.violation("C13.polyline.pre_state_independent", callee, "mismatch:result_depends_on_queried_connectivity", "polyline", dict(base, sequence=list(seq2)))
             if after is not None:
@@ -1485,28 +1649,53 @@ def explore_polyline(M, n, edges, depth, rep: Report):
 # =========================================================================================== entry points
 def run_task(task, rep: Report):
     import mouette as M
+    dev = task.get("dev")
+    if not dev:
+        return _run_task(M, task, rep)
+    # ---- a deviation: own input-class suffix, coverage facts kept apart; process-global settings restored
+    sub = Report()
+    sub.class_suffix, sub.stop_on = rep.class_suffix + ":" + dev, rep.stop_on
+    old_sort, old_form, old_unit = M.config.sort_neighborhoods, ARGFORM[0], UNIT[0]
+    try:
+        if task.get("sort") is False:
+            M.config.sort_neighborhoods = False
+        ARGFORM[0] = task.get("argform")
+        UNIT[0] = 2.0 ** task.get("unit", 0)
+        _run_task(M, task, sub)
+    finally:
+        M.config.sort_neighborhoods, ARGFORM[0], UNIT[0] = old_sort, old_form, old_unit
+        sub.counters = {dev + ":" + k: v for k, v in sub.counters.items()}
+        sub.flags = {dev + ":" + k for k in sub.flags}
+        sub.outcomes = {dev + ":" + k: v for k, v in sub.outcomes.items()}
+        sub.count(dev + ":tasks")
+        rep.merge(sub)
+
+
+def _run_task(M, task, rep: Report):
     fam = task["fam"]
+    scale, lite, sfx = UNIT[0], task.get("lite"), (":" + task["dev"] if task.get("dev") else "")
     if fam == "surf":
         recs = []
         if "zoo" in task:
             name, p, f, d = task["zoo"]
             recs.append((name, [tuple(q) for q in p], [tuple(g) for g in f], d, True))
         for name, n, fl, d in task.get("meshes", []):
-            recs.append((name, F.moment_curve(n), [tuple(g) for g in fl], d, False))
+            recs.append((name, F.moment_curve(n), [tuple(g) for g in fl], d, bool(task.get("repeated"))))
         for name, pts, faces, d, is_zoo in recs:
-            cx = SurfCtx(M, name, pts, faces, d, task["cap"], task["all_faces"], rep, is_zoo, task["max_faces"])
+            cx = SurfCtx(M, name + sfx, pts, faces, d, task["cap"], task["all_faces"], rep, is_zoo, task["max_faces"], scale, lite,
+                         bool(task.get("arg_events_only")))
             if len(set(cx.P0)) != len(cx.P0):
                 rep.count("filtered_coincident_vertices"); continue
             explore_surface(cx)
-            if cx.arity == "3":
+            if cx.arity == "3" and not cx.arg_events_only:
                 check_split_double(cx)
     elif fam == "tet":
-        name, n, cells = task["complex"]
-        cx = VolCtx(M, name, n, [tuple(c) for c in cells], task["variant"], task["depth"], task["cap"], task["all_args"], rep)
-        explore_volume(cx)
+        for name, n, cells in (task["complexes"] if "complexes" in task else [task["complex"]]):
+            cx = VolCtx(M, name + sfx, n, [tuple(c) for c in cells], task["variant"], task["depth"], task["cap"], task["all_args"], rep, scale, lite)
+            explore_volume(cx)
     elif fam == "graph":
         for n, edges in task["graphs"]:
-            explore_polyline(M, n, [tuple(e) for e in edges], task["depth"], rep)
+            explore_polyline(M, n, [tuple(e) for e in edges], task["depth"], rep, scale, lite)
     else:
         raise ValueError(fam)
 
@@ -1556,4 +1745,46 @@ def finish(tier, rep: Report):
     c = "abandoned:nonexistent_index_accepted"
     if rep.counters.get(c):
         fails.append(f"{c} = {rep.counters[c]}: the unchanged library rejects an index == number of elements; these blocks were not judged")
+    if "non_triangle_in_position_0_of_a_mixed_face_list" not in rep.flags:
+        fails.append("coverage flag missing: non_triangle_in_position_0_of_a_mixed_face_list")
+    # ---- deviations (their facts are prefixed with the deviation)
+    ALL_OPS = ("T", "TF", "FAN", "L", "Q3", "S6", "L2", "S6x2", "SDB", "CFAN", "FSPLIT", "split_edge")
+    want = {d: {"surface_inputs": 47, "volume_inputs": 27, "polyline_inputs": 71, "ops": ALL_OPS, "flag": "built_with_scaled_coordinates"} for d in DEV_UNIT}
+    want[DEV_SORT] = {"surface_inputs": 134, "volume_inputs": 54, "polyline_inputs": 71, "ops": ALL_OPS, "flag": "built_with_sort_neighborhoods_off"}
+    want[DEV_ORDER] = {"surface_inputs": 87, "ops": ("T", "TF", "FAN", "L", "Q3", "S6", "SDB"), "flag": "non_triangle_in_position_0_of_a_mixed_face_list"}
+    want[DEV_NPINT] = {"surface_inputs": 40, "volume_inputs": 27, "polyline_inputs": 71, "ops": ("TF", "FAN", "CFAN", "FSPLIT", "split_edge"),
+                       "flag": "indices_given_as_numpy_integers"}
+    for d, w in want.items():
+        if not rep.counters.get(d + ":tasks"):
+            fails.append(f"deviation {d}: no task"); continue
+        for k in ("surface_inputs", "volume_inputs", "polyline_inputs"):
+            if k in w and rep.counters.get(d + ":" + k) != w[k]:
+                fails.append(f"deviation {d}: {k} = {rep.counters.get(d + ':' + k)}, expected {w[k]}")
+        for kind in w["ops"]:
+            if not rep.outcomes.get(d + ":" + kind):
+                fails.append(f"deviation {d}: operation {kind} was never executed")
+        for kind in ("TF", "FAN") + (("FSPLIT",) if "volume_inputs" in w else ()):
+            if len(rep.outcomes.get(d + ":" + kind, ())) < 2:
+                fails.append(f"deviation {d}: operation {kind} produced a single distinct outcome")
+        for f in (w["flag"], "closed", "bordered", "arity3", "arity4", "arity5"):
+            if d + ":" + f not in rep.flags:
+                fails.append(f"deviation {d}: coverage flag missing: {f}")
+        if not rep.counters.get(d + ":steps_validated"):
+            fails.append(f"deviation {d}: no operation was validated against the refinement model")
+        if any(k.startswith(d + ":") and "InexactUnit" in x for k, v in rep.outcomes.items() for x in v):
+            fails.append(f"deviation {d}: a coordinate was not exactly representable in the unit of the task")
+    for d in DEV_UNIT:
+        for f in ("area_clause_on_polygon_mesh", "tet_shared_face", "polyline_disconnected", "sdb_split_something"):
+            if d + ":" + f not in rep.flags:
+                fails.append(f"deviation {d}: coverage flag missing: {f}")
+        # the unit of length changes nothing but the unit: the same operations validated, clauses evaluated, cases filtered
+        for k in ("steps_validated", "area_clause_evaluated", "filtered_coincident_refinement_points",
+                  "area_clause_skipped_input_has_nonplanar_or_nonconvex_polygon", "events_skipped_result_larger_than_the_face_bound"):
+            a, b = rep.counters.get(DEV_UNIT[0] + ":" + k, 0), rep.counters.get(d + ":" + k, 0)
+            if a != b or (k in ("steps_validated", "area_clause_evaluated") and not a):
+                fails.append(f"unit of length: counter {k} is {a} under {DEV_UNIT[0]} and {b} under {d}")
+    if not rep.outcomes.get(DEV_SORT + ":input_object") or not rep.outcomes.get(DEV_SORT + ":vol_input_object"):
+        fails.append(f"deviation {DEV_SORT}: the object passed in was never judged")
+    if not rep.counters.get(DEV_ORDER + ":config_off:surface_blocks"):
+        fails.append(f"deviation {DEV_ORDER}: no block was run with edge completion off")
     return fails
